@@ -190,8 +190,9 @@ macro_rules! increase_suite {
         fn $fname<T: Fl, C>(m: &mut Monitor, ctx: &Ctx, d: &Desc)
         where
             C: C3<T> + $Tr<Scalar = T> + $TrA<Scalar = T> + $De<Scalar = T> + $DeA<Scalar = T>,
-            Alpha<C, T>: $Tr<Scalar = T>,
+            Alpha<C, T>: $Tr<Scalar = T> + $TrA<Scalar = T> + $De<Scalar = T> + $DeA<Scalar = T>,
             [C]: $TrA<Scalar = T> + $DeA<Scalar = T>,
+            [Alpha<C, T>]: $TrA<Scalar = T>,
         {
             let inst = format!("{}/{}", d.name, T::NAME);
             let mut rng = ctx.rng(&format!("{}{}", $label, inst), 0);
@@ -230,6 +231,27 @@ macro_rules! increase_suite {
                 let wrf = wa.clone().$inc_fixed(ft);
                 if !same(&arr(&wr.color), &r) || !same(&arr(&wrf.color), &rf) || wr.alpha.d() != 0.625 || wrf.alpha.d() != 0.625 {
                     w.bad(concat!($label, "_alpha_form_differs"), inp(), json!({"relative": fvec(&arr(&wr.color)), "fixed": fvec(&arr(&wrf.color)), "alpha": wr.alpha.d()}), json!({"relative": fvec(&r), "fixed": fvec(&rf), "alpha": 0.625}));
+                }
+                // every other Alpha-wrapped form: assigning, fixed assigning, the negated counterparts, a slice of Alpha colours
+                {
+                    let mut v1 = wa.clone();
+                    v1.$inc_a(ft);
+                    let mut v2 = wa.clone();
+                    v2.$inc_fixed_a(ft);
+                    let v3 = wa.clone().$dec(nft);
+                    let v4 = wa.clone().$dec_fixed(nft);
+                    let mut v5 = wa.clone();
+                    v5.$dec_a(nft);
+                    let mut v6 = wa.clone();
+                    v6.$dec_fixed_a(nft);
+                    let mut vs: Vec<Alpha<C, T>> = vec![wa.clone(), wa.clone()];
+                    vs[..].$inc_fixed_a(ft);
+                    let rel = [&v1, &v3, &v5];
+                    let fix = [&v2, &v4, &v6, &vs[0], &vs[1]];
+                    w.m.evals(7);
+                    if !rel.iter().all(|x| same(&arr(&x.color), &r) && x.alpha.d() == 0.625) || !fix.iter().all(|x| same(&arr(&x.color), &rf) && x.alpha.d() == 0.625) {
+                        w.bad(concat!($label, "_alpha_assign_or_negated_form_differs"), inp(), json!({"assign": fvec(&arr(&v1.color)), "fixed_assign": fvec(&arr(&v2.color)), "dec": fvec(&arr(&v3.color)), "dec_fixed": fvec(&arr(&v4.color)), "dec_assign": fvec(&arr(&v5.color)), "dec_fixed_assign": fvec(&arr(&v6.color)), "slice_fixed_assign": fvec(&arr(&vs[0].color))}), json!({"relative": fvec(&r), "fixed": fvec(&rf), "alpha": 0.625}));
+                    }
                 }
                 for len in [0usize, 1, 7] {
                     let mut sl: Vec<C> = (0..len).map(|_| ca.clone()).collect();
